@@ -41,6 +41,7 @@ type Options struct {
 	MapRange    bool // range over the single-entry map
 	StateProbes bool // sprinkle state probes ({{.}}, isset, yield content)
 	Sites       bool // C12: probe statements are {{mark(K)}} site placeholders, only outside try; every file defines block zb
+	MultiLine   bool // actions may contain newlines (whitespace inside an action is free)
 	TargetTry   bool // place exactly one instrumented try statement (C13); probes only inside its body
 	CatchForm   int  // 0: no catch, 1: catch without variable, 2: catch with variable
 }
@@ -52,7 +53,7 @@ func SwarmOptions(t *sim.Tape) Options {
 		Probes: true, ProbeExpr: on(2, 3),
 		Try: on(3, 4), Blocks: on(3, 4), Include: on(2, 3), Exec: on(1, 3), Extends: on(1, 2), Import: on(1, 2),
 		Range: on(4, 5), If: on(3, 4), Vars: on(3, 4), Dump: on(1, 4), Trim: on(1, 4), Comments: on(1, 4),
-		MaxStmts: t.Range(2, 6), MaxDepth: t.Range(1, 4), MapRange: on(1, 3), StateProbes: on(2, 3),
+		MaxStmts: t.Range(2, 6), MaxDepth: t.Range(1, 4), MapRange: on(1, 3), StateProbes: on(2, 3), MultiLine: on(1, 2),
 	}
 }
 
@@ -137,6 +138,9 @@ func (g *G) emit(s string) {
 }
 
 func (g *G) ld() string {
+	if g.O.MultiLine && g.T.Choose(5) == 4 {
+		return "{{\n\t"
+	}
 	if g.O.Trim && g.T.Choose(6) == 5 {
 		return "{{- "
 	}
@@ -147,6 +151,9 @@ func (g *G) ld() string {
 }
 
 func (g *G) rd() string {
+	if g.O.MultiLine && g.T.Choose(5) == 4 {
+		return "\n}}"
+	}
 	if g.O.Trim && g.T.Choose(6) == 5 {
 		return " -}}"
 	}
@@ -438,7 +445,7 @@ func (g *G) rangeStmt(sc scopeInfo) {
 		expr string
 		elem Kind
 	}
-	subs := []subj{{"names", KStr}, {"root.Items", KItem}, {"ints(0, 2)", KInt}, {"item.Tags", KStr}}
+	subs := []subj{{"names", KStr}, {"root.Items", KItem}, {"ints(0, 2)", KInt}, {"item.Tags", KStr}, {"root.NoNames", KStr}, {"none", KStr}}
 	if sc.ctx == KRoot {
 		subs = append(subs, subj{".Items", KItem}, subj{".Names", KStr})
 	}
@@ -596,16 +603,27 @@ func (g *G) tryStmt(sc scopeInfo) {
 	in.inTry++
 	g.act("try")
 	g.list(in, g.O.MaxStmts-1)
+	cb := sc.child("catch")
 	switch g.T.Choose(3) {
 	case 1:
 		g.act("catch")
 		g.text()
+		g.catchProbe(cb)
 	case 2:
 		g.act("catch e")
 		g.text()
 		g.act("e.Error()")
+		g.catchProbe(cb)
 	}
 	g.act("end")
+}
+
+// catchProbe: a catch body may itself fail (a second fault in the same execution).
+func (g *G) catchProbe(sc scopeInfo) {
+	if g.probesOn && !g.O.Sites && g.T.Choose(2) == 1 {
+		g.act(g.probeExpr(sc, false))
+		g.text()
+	}
 }
 
 // SitePlaceholder is the exact text of failure-site K in Sites mode (C12); it
@@ -620,6 +638,7 @@ const (
 	MarkTryBegin = 9001
 	MarkTryEnd   = 9002
 	MarkTryBody  = 9003 // first statement of the body: identifies the statement's own buffer
+	MarkRoot     = 9000 // first statement of every root template: the top-level writer baseline
 	SetToken     = "@@SET@@"
 )
 
@@ -630,9 +649,9 @@ const TargetOpen = "{{mark(9001)}}{{try}}{{mark(9003)}}"
 func TargetClose(form int) string {
 	switch form {
 	case 1:
-		return "{{catch}}[CATCH]{{end}}{{mark(9002)}}"
+		return "{{catch}}[CATCH]<cc:{{.}}>{{end}}{{mark(9002)}}"
 	case 2:
-		return "{{catch e}}[CATCH]{{e.Error()}}{{end}}{{mark(9002)}}"
+		return "{{catch e}}[CATCH]{{e.Error()}}<cc:{{.}}>{{end}}{{mark(9002)}}"
 	}
 	return "{{end}}{{mark(9002)}}"
 }
@@ -668,6 +687,9 @@ func (g *G) file(path, role string, extends string, imports []string, visible []
 	}
 	if g.O.Sites {
 		g.emit(ZBlock + "\n")
+	}
+	if (g.O.Sites || g.O.TargetTry) && (role == "main" || role == "base" || role == "main-target") {
+		g.emit("{{mark(9000)}}")
 	}
 	sc := scopeInfo{ctx: KRoot}
 	switch role {
